@@ -47,17 +47,17 @@ type zsReq struct {
 }
 
 type zsScenario struct {
-	Name      string            `json:"name"`
-	Env       map[string]string `json:"env,omitempty"`
-	GPUs      []zsGPU           `json:"gpus"`
-	VRAM      map[string]uint64 `json:"vram,omitempty"` // per model: what the runner reports as used VRAM (0: small)
-	Reqs      []zsReq           `json:"reqs"`
-	Unload    []string          `json:"unload,omitempty"`   // explicit unload calls (keep_alive=0 requests for a loaded model)
-	Faults    []string          `json:"faults,omitempty"`   // subset of load, ping, newserver
-	Seq       bool              `json:"seq,omitempty"`      // submit request i+1 only when everything triggered by request i has settled
-	SeqAdv    string            `json:"seq_adv,omitempty"`  // with Seq: let this much virtual time pass between requests
-	FitTight  bool              `json:"fit_tight,omitempty"` // GPU total = what one model needs + vram of one runner - 1 (second model only fits after eviction)
-	Props     []string          `json:"props,omitempty"`    // which properties this scenario is aimed at (all monitors run anyway)
+	Name     string            `json:"name"`
+	Env      map[string]string `json:"env,omitempty"`
+	GPUs     []zsGPU           `json:"gpus"`
+	VRAM     map[string]uint64 `json:"vram,omitempty"` // per model: what the runner reports as used VRAM (0: small)
+	Reqs     []zsReq           `json:"reqs"`
+	Unload   []string          `json:"unload,omitempty"`    // explicit unload calls (keep_alive=0 requests for a loaded model)
+	Faults   []string          `json:"faults,omitempty"`    // subset of load, ping, newserver
+	Seq      bool              `json:"seq,omitempty"`       // submit request i+1 only when everything triggered by request i has settled
+	SeqAdv   string            `json:"seq_adv,omitempty"`   // with Seq: let this much virtual time pass between requests
+	FitTight bool              `json:"fit_tight,omitempty"` // GPU total = what one model needs + vram of one runner - 1 (second model only fits after eviction)
+	Props    []string          `json:"props,omitempty"`     // which properties this scenario is aimed at (all monitors run anyway)
 }
 
 type zsSrv struct {
@@ -76,31 +76,31 @@ type zsSrv struct {
 }
 
 type zsClient struct {
-	i         int
-	req       zsReq
-	ctx       gocontext.Context
-	cancel    gocontext.CancelFunc
-	cancelled bool
-	replies   int
-	srv       *zsSrv
-	err       error
-	succCh    chan *runnerRef
-	errCh     chan error
-	finished  bool
-	queueFull bool
-	submitAt  int
-	submitTime gotime.Duration
+	i            int
+	req          zsReq
+	ctx          gocontext.Context
+	cancel       gocontext.CancelFunc
+	cancelled    bool
+	replies      int
+	srv          *zsSrv
+	err          error
+	succCh       chan *runnerRef
+	errCh        chan error
+	finished     bool
+	queueFull    bool
+	submitAt     int
+	submitTime   gotime.Duration
 	liveAtSubmit []*zsSrv
 }
 
 type zsExec struct {
-	sc      *zsScenario
-	sched   *Scheduler
-	servers []*zsSrv
-	clients []*zsClient
-	created int
-	closedN int
-	fitNeed uint64
+	sc           *zsScenario
+	sched        *Scheduler
+	servers      []*zsSrv
+	clients      []*zsClient
+	created      int
+	closedN      int
+	fitNeed      uint64
 	expectVictim *zsSrv
 	expectArmed  bool
 	expectAt     gotime.Duration
@@ -207,8 +207,8 @@ func (s *zsSrv) Completion(ctx gocontext.Context, req llm.CompletionRequest, fn 
 func (s *zsSrv) Embedding(ctx gocontext.Context, input string) ([]float32, error) { return nil, nil }
 func (s *zsSrv) Tokenize(ctx gocontext.Context, content string) ([]int, error)    { return nil, nil }
 func (s *zsSrv) Detokenize(ctx gocontext.Context, tokens []int) (string, error)   { return "", nil }
-func (s *zsSrv) EstimatedVRAM() uint64                                           { return s.vram }
-func (s *zsSrv) EstimatedTotal() uint64                                          { return s.vram }
+func (s *zsSrv) EstimatedVRAM() uint64                                            { return s.vram }
+func (s *zsSrv) EstimatedTotal() uint64                                           { return s.vram }
 func (s *zsSrv) EstimatedVRAMByGPU(gpuID string) uint64 {
 	for _, g := range s.gpus {
 		if g.ID == gpuID {
